@@ -14,6 +14,7 @@
 import json
 import os
 import re
+import shutil
 import subprocess
 import sys
 import time
@@ -150,7 +151,8 @@ def classify(case, want, got):
     for k in ("ids", "authors", "kinds"):
         if f[k]:
             key = {"ids": "id", "authors": "au", "kinds": "kind"}[k]
-            feats.append("%s[%d/%d]" % (k, f[k].index(e[key]) + 1, len(f[k])))
+            if f[k].index(e[key]) > 0:
+                feats.append("%s_match_not_first_listed" % k)
     if f["since"] > 0:
         feats.append("since%sts" % ("=" if f["since"] == e["ts"] else "<"))
     if f["until"] < 4:
@@ -166,7 +168,7 @@ def classify(case, want, got):
             feats.append("value_not_first_listed")
         if any(len(tg) > 2 for tg in e["tags"]):
             feats.append("event_tag_3_strings")
-    return "C06:spec_true_impl_%s:%s" % (g, "+".join(feats) or "unconstrained")
+    return "C06:spec_true_impl_%s:%s" % (g, "+".join(feats) or "no_boundary_feature")
 
 
 def merge(sums):
@@ -246,6 +248,7 @@ def run(prop, tier, seed, replay=None):
     )
     if div:
         C.log("[matchdrv] construction-path divergences (not part of the C06 verdict): %s" % json.dumps(div))
+    shutil.rmtree(wd, ignore_errors=True)      # case shards are large; replay files carry the failing cases
     V.assumptions = ["exhaustive within the grammar of NostrMatch.tla only (3 values per list, 5 time points, 4 names, 3 values)",
                      "the by-hand layout of vh::build_event / build_tags / the filter layout is what 'well-formed operand' means",
                      "TLC is trusted"]
